@@ -18,7 +18,7 @@ LEVEL = 'exploration'
 TECHNIQUE = ('pairwise metamorphic runtime monitor over enforce/authorize modes on identical inputs; deep input '
              'snapshots; icontract post-condition on Enforcer.enforce; recording check counts evaluations')
 RULE = ('cases = (rule set from the expression generator + fixed always-allow/deny/role/attribute/unknown names + check '
-        'objects returning odd falsy/truthy values (0, "", None, [], "yes", object()) + scoped registered policies) x '
+        'objects returning odd falsy/truthy values (0, "", None, [], "yes", object()) + scoped registered policies; 8 % of the triples run against a completely empty rule set) x '
         'credentials (role subsets, scope fields, non-JSON values: bytes, sets, objects, passwords) x targets (nested, '
         'opaque objects) x {plain, do_raise, do_raise+custom class+args} x {enforce, authorize} x debug logging off/on. '
         'Non-trivial = the plain decision is falsy (so the raising modes must raise) or a scope mismatch applies; '
@@ -30,11 +30,11 @@ LEVEL_TEXT = ('Seeded sampling of triples, each enforced in 12 mode combinations
 LEVEL_NOTE = 'trusted: the mode-relation oracle transcribed from the statement; copy.deepcopy for fresh inputs per call'
 PLAN = {'quick': dict(shards=4, wall=60), 'thorough': dict(shards=16, wall=400)}
 MIN = {'evaluations': 1000, 'falsy_plain': 300, 'truthy_plain': 300, 'custom_exceptions_seen': 200,
-       'invalid_scope_seen': 20, 'not_registered_seen': 100, 'debug_on_triples': 300}
+       'invalid_scope_seen': 20, 'not_registered_seen': 100, 'debug_on_triples': 300, 'empty_ruleset_triples': 50}
 ANCHORS = ['oslo_policy.policy:Enforcer.enforce', 'oslo_policy.policy:Enforcer.authorize',
            'oslo_policy.policy:Enforcer._enforce_scope']
 REQUIRED_ANCHORS = ['oslo_policy.policy:Enforcer.enforce', 'oslo_policy.policy:Enforcer.authorize']
-N = {'quick': 12000, 'thorough': 400000}
+N = {'quick': 24000, 'thorough': 400000}
 
 
 class CustomDenied(Exception):
@@ -140,6 +140,10 @@ class World:
         rules.update(extra)
         self.enf.set_rules(self.policy.Rules.from_dict(rules))
 
+    def install_empty(self):
+        """No rules at all: the enforcer fails closed for every name (check objects are still evaluated)."""
+        self.enf.set_rules({})
+
 
 def token_scope(creds):
     if creds.get('system') or creds.get('system_scope'):
@@ -185,7 +189,8 @@ def gen_case(rnd):
     exc_args = rnd.choice([[], [1, 'two'], ['only'], [None]])
     exc_kwargs = rnd.choice([{}, {'kw': 3}, {'a': None, 'b': [1]}])
     return dict(gen_rule=gen_rule, rule=rule, byobj=byobj, creds=creds, target=target, exc_args=exc_args,
-                exc_kwargs=exc_kwargs, debug=rnd.random() < 0.5, enforce_scope=rnd.random() < 0.8)
+                exc_kwargs=exc_kwargs, debug=rnd.random() < 0.5, enforce_scope=rnd.random() < 0.8,
+                empty_rules=rnd.random() < 0.08)
 
 
 def materialise(x, objs):
@@ -211,7 +216,11 @@ def materialise(x, objs):
 def check_case(ctx, worlds, case):
     w = worlds[bool(case['enforce_scope'])]
     policy = w.policy
-    w.install({'gen': case['gen_rule']})
+    if case.get('empty_rules'):
+        w.install_empty()
+        ctx.count('empty_ruleset_triples')
+    else:
+        w.install({'gen': case['gen_rule']})
     objs = []
     creds0 = materialise(case['creds'], objs)
     if 'blob' in creds0 and isinstance(creds0['blob'], str):
@@ -229,6 +238,10 @@ def check_case(ctx, worlds, case):
     else:
         rule = name = case['rule']
         scope_types = w.registered.get(name)
+    if case.get('empty_rules') and name is not None:
+        # with no rules at all a name resolves to nothing: the request is simply denied (C03); there is no policy whose
+        # scope types could be checked
+        scope_types = None
     mismatch = bool(scope_types) and w.enforce_scope and token_scope(creds0) not in scope_types
     args = tuple(case['exc_args'])
     kwargs = dict(case['exc_kwargs'])
